@@ -18,6 +18,9 @@ CLAIMS = {
  'C17': dict(engine='BIT+ALG', technique='loop-body state transformers in GF(2) algebraic normal form with uninterpreted table atoms; trip-count/preload/store/fold-shape rules on the loop structure; composition lemma with checked premises',
    cat='proof', text='for all 7 update routines the byte step is proved to be shift8(value) ^ table[index] with the index bits value_hi/lo ^ byte; for all 8 generators the inner-loop body is proved to be one step of bit-by-bit polynomial division (reflected polynomial of the same width for the LSB-first forms), GF(2)-linear in the register, executed 8 times from the right preload for c = 0..255 and stored truncated at table[c]; every routine is a left fold from the value parameter returning the accumulator (chunk composition); both hashes are left folds whose string and length-delimited forms have the same step',
    note=TRUST + ', lib/bit.py ANF; the step from these premises to "table-driven CRC = bitwise remainder for every polynomial, initial value and byte string" and the m/l reflection duality is the lemma written out in specs/crc_lemma.md (not machine-checked); pointers assumed not to alias; hashes have no independent definition, only fold shape and form agreement are decided'),
+ 'C18': dict(engine='BIT', technique='bit-level abstract interpretation (GF(2) ANF) of encoder and decoder with range partitioning on the ladder comparisons; decoder decision tree over completely symbolic bytes; loop-body transformer for the length counter',
+   cat='proof', text='the encoder is analysed once for a symbolic 31-bit code point: each decision-tree leaf is a length class whose range, written indices and byte layout are compared with the UTF-8 table; those byte vectors are pushed through the decoder\'s abstract semantics (num >= len: same length and same 31 bits, every proper prefix: 0); the decoder is also analysed on arbitrary bytes for num=0..6 and any num>6 (all reads < num, result <= num, multi-byte results only with 10xxxxxx trailers and a matching lead byte); a_utf_length advances by exactly the reported lengths and stops at the first 0',
+   note=TRUST + ', lib/bit.py ANF; covers all 2^31-1 code points and all byte strings symbolically; reads-in-bounds for a symbolic num between 0 and 6 are covered by enumerating num, not by a relational bound; a_utf_catc reservation (src/str.c) is checked under C06 when LIN is available; a_utf_length_ (non-validating counter) is not covered'),
 }
 
 NA = {
@@ -51,7 +54,7 @@ def main():
         'engines': [
             {'name': 'irx+llir', 'path': 'lib/irx.py, lib/llir.py', 'serves_properties': sorted(CLAIMS), 'kind_free_text': 'clang/opt IR pipeline and IR reader (CFG, dominators, loops, def-use)'},
             {'name': 'ALG', 'path': 'lib/symx.py, lib/alg.py', 'serves_properties': ['C15', 'C19'], 'kind_free_text': 'abstract interpreter over exact algebraic values with trace partitioning'},
-            {'name': 'BIT', 'path': 'lib/bit.py, lib/looptx.py', 'serves_properties': ['C17', 'C19'], 'kind_free_text': 'GF(2) algebraic-normal-form bit vectors; loop-body state transformers'},
+            {'name': 'BIT', 'path': 'lib/bit.py, lib/looptx.py', 'serves_properties': ['C17', 'C18', 'C19'], 'kind_free_text': 'GF(2) algebraic-normal-form bit vectors; loop-body state transformers'},
             {'name': 'ABI', 'path': 'props/C20.py, lib/dwarf.py, lib/rustsrc.py', 'serves_properties': ['C20'], 'kind_free_text': 'declaration and layout agreement'},
         ],
         'checks': checks,
